@@ -215,6 +215,43 @@ func init() {
 	}
 	// slicing and length of a reflect.Value: reflect's own operations, uninterpreted (the obligation is
 	// that the closure delegates to them with the operands of the expression, in order)
+	// more of reflect's own operations, uninterpreted: what is proved about their callers is that they are
+	// applied to the right operands in the right order
+	for n, uf := range map[string]string{"reflect.Value.Cap": "rvCap", "reflect.Value.Addr": "rvAddrOp", "reflect.AppendSlice": "rvAppendSliceOp", "reflect.Copy": "rvCopyOp", "reflect.Value.MapIndex": "rvMapIndexOp", "reflect.Value.Index": "rvIndexOp", "reflect.MakeSlice": "rvMakeSliceOp", "reflect.MakeMapWithSize": "rvMakeMapOp", "reflect.MakeMap": "rvMakeMap1Op", "reflect.MakeChan": "rvMakeChanOp", "reflect.PtrTo": "rtPtrTo", "reflect.PointerTo": "rtPtrTo"} {
+		uf := uf
+		libModels[n] = func(x *Exec, st *State, e *ast.CallExpr, a []Value, _ []types.Type) (Value, bool) {
+			if e.Ellipsis.IsValid() {
+				return nil, false
+			}
+			var ts []Term
+			for _, v := range a {
+				ts = append(ts, asTerm(v))
+			}
+			return x.uf(uf, SInt, ts...), true
+		}
+	}
+	// SetMapIndex(m, k, v): the map content of m becomes rvMapSet(content, k, v)
+	libModels["reflect.Value.SetMapIndex"] = func(x *Exec, st *State, e *ast.CallExpr, a []Value, _ []types.Type) (Value, bool) {
+		m, k, v := asTerm(a[0]), asTerm(a[1]), asTerm(a[2])
+		x.rvWrite(st, "X", m, x.uf("rvMapSet", SInt, x.rvRead(st, "X", m), k, v))
+		return intLit(0), true
+	}
+	// reflect.TypeOf(x): the type descriptor of x's static type when that type is basic (its kind is known)
+	libModels["reflect.TypeOf"] = func(x *Exec, st *State, e *ast.CallExpr, a []Value, at []types.Type) (Value, bool) {
+		if len(at) != 1 || at[0] == nil {
+			return nil, false
+		}
+		b, ok := at[0].Underlying().(*types.Basic)
+		if !ok || goKind(at[0]) == 0 {
+			return nil, false
+		}
+		t := x.uf("rtOfBasic_"+sanitize(b.Name()), SInt)
+		if !x.underBinder(t.S) {
+			x.declare("(assert (= (rtKind "+t.S+") "+intLit(goKind(at[0])).S+"))", "ax_rtbasic:"+t.S)
+			x.declare("(assert (> "+t.S+" 0))", "ax_rtbasic_nn:"+t.S)
+		}
+		return t, true
+	}
 	libModels["reflect.Value.Len"] = func(x *Exec, st *State, e *ast.CallExpr, a []Value, _ []types.Type) (Value, bool) {
 		return x.uf("rvLen", SInt, asTerm(a[0])), true
 	}
